@@ -196,7 +196,7 @@ class RealRun(Harness):
     prop, ob = PROP, 'O3'
     width = 64
     BAD = ['refused', 'unresolvable', 'silent', 'early-close', 'bad-block-size', 'truncated-kexinit', 'garbage-kexinit', 'probe-garbage', 'type-byte-only-kexinit', 'probe-type-byte-only',
-           'ssh1-fallback', 'unresolvable-idna']
+           'ssh1-fallback', 'unresolvable-idna', 'packet-text-forges-ruler', 'header-forges-ruler']
 
     def __init__(self, bad, pos, json, verbose=False, colors=False):
         self.bad, self.pos, self.json, self.verbose, self.colors = bad, pos, json, verbose, colors
@@ -228,6 +228,13 @@ class RealRun(Harness):
             bad = [AE.Conn([BANNER, kp[:20] + inp['x']], 'close')]
         elif b == 'garbage-kexinit':
             bad = [AE.Conn([BANNER, AE.frame(bytes([20]) + b'\x00' * 16 + b'\xff\xff\xff\xff' + inp['x'])], 'close')]
+        elif b == 'packet-text-forges-ruler':
+            # the peer closes mid-packet; what it sent so far is text of its choosing: a line break, the 80-dash ruler that separates two targets' blocks and a
+            # made-up target line (the first four bytes pass the reader's length check)
+            bad = [AE.Conn([BANNER, b'oool\n' + b'-' * 80 + b'\n(gen) target: good' + inp['x'][:0]], 'close')]
+        elif b == 'header-forges-ruler':
+            # the same through the lines a peer may send before its banner
+            bad = [AE.Conn([b'welcome\r\n' + b'-' * 80 + b'\r\n(gen) target: good\r\n' + BANNER, kp], 'close')]
         elif b == 'ssh1-fallback':
             # the peer asks for the other protocol version in plain text; the retry over SSH-1 is answered by a close
             bad = [AE.Conn([BANNER, b'Protocol major versions differ.\n'], 'close'), AE.Conn([b'SSH-1.5-old\r\n'], 'close')]
@@ -296,7 +303,8 @@ class RealRun(Harness):
                 jt = js and [e.get('target') if isinstance(e, dict) else None for e in v] == [h + ':22' for h in hosts]
             except ValueError:
                 js = jt = False
-        return {'ret': r, 'json_ok': js, 'json_targets': jt, 'seps': text.count('-' * 80 + '\n'), 'good': 'good' in text or '"target": "good' in text,
+        return {'ret': r, 'json_ok': js, 'json_targets': jt, 'seps': len([ln for ln in text.split('\n') if ln == '-' * 80]),
+                'target_lines': len([ln for ln in text.split('\n') if ln.startswith('(gen) target: ')]), 'good': 'good' in text or '"target": "good' in text,
                 'bad': ('bad' in text), 'leaked': buf.getvalue() != '', 'traceback': 'Traceback (most recent call last)' in text, 'ansi': '\x1b[' in text or '\\u001b' in text}
 
     def check(self, inp, obs):
@@ -310,8 +318,10 @@ class RealRun(Harness):
             yield 'no-terminal-colour-codes-in-json', not obs['ansi']
         else:
             yield 'two-result-blocks', obs['seps'] == 1 and obs['good']
+            # nothing a peer sends can pass for the ruler between two blocks or for a block's target line
+            yield 'at-most-one-target-line-per-block', obs['target_lines'] <= 2      # (a target that cannot be connected to is named in its error line instead)
             yield 'each-block-names-its-target', obs['good'] and obs['bad']
-        yield 'exit-status-ranked-max', r in (1, -1) or (self.bad.startswith('probe-') and r in (0, 2, 3))
+        yield 'exit-status-ranked-max', r in (1, -1) or ((self.bad.startswith('probe-') or self.bad == 'header-forges-ruler') and r in (0, 2, 3))
         if self.bad in ('refused', 'unresolvable', 'silent', 'unresolvable-idna'):
             # a target that cannot be reached is a connection error (the healthy target here rates below it), reported as such - not an internal error
             yield 'unreachable-target-is-a-connection-error', r == 1 and not obs['traceback']
